@@ -286,11 +286,13 @@ def run(tier, seed):
     for o in orders:
         for fmt in all_formats(o):
             if o <= 3:
-                opts = {"dim_values": (0, 1, 2) if tier == "quick" else (0, 1, 2, 3), "max_cells": 8 if tier == "quick" else 9,
-                        "perms": True, "convert_variants": ("sorted", "explicit-zero") if tier == "quick" else
-                        ("sorted", "explicit-zero", "duplicate", "reversed"), "depth": 2}
-                if o == 3 and tier == "quick":
-                    opts["max_cells"] = 8
+                if tier == "quick":
+                    opts = {"dim_values": (0, 1, 2), "max_cells": 8, "perms": True,
+                            "convert_variants": ("sorted", "explicit-zero"), "depth": 2}
+                else:
+                    # thorough: a dimension of 3 for orders <= 2 (9 cells), more variants converted
+                    opts = {"dim_values": (0, 1, 2, 3) if o <= 2 else (0, 1, 2), "max_cells": 9 if o <= 2 else 8,
+                            "perms": True, "convert_variants": ("sorted", "explicit-zero", "duplicate"), "depth": 2}
             else:
                 opts = {"dim_values": (1, 2), "max_cells": 8, "perms": False, "convert_variants": (), "depth": 1}
             units.append({"format": fmt_str(fmt), "opts": opts, "seed": seed})
